@@ -45,7 +45,8 @@ def classify(why, f, c, o):
         return {"defect": "D4"}
     # D18: explicit shutdown(wait=False) of the reusable executor racing with a resize by another thread: _resize spawns
     #      workers on an executor whose manager is already in its final join
-    if hang and "reuse" in ops and "shutdown:nowait" in ops and len(c["scn"]["users"]) > 1 and any(b.startswith("mgr@pjoin") for b in blocked) and not f["crashes"]:
+    if hang and "reuse" in ops and any(op.startswith("shutdown") for op in ops) and len(c["scn"]["users"]) > 1 \
+            and any(b.startswith("mgr@pjoin") for b in blocked) and not f["crashes"]:
         return {"defect": "D18"}
     # D17: the last pending work item is a cancelled one: it is dropped without any event and the manager goes back to sleep
     #      although a shutdown / interpreter exit is waiting for it
